@@ -21,7 +21,7 @@ Definition all_finished (s : st) : bool :=
    commits B's reservation (adding presence); B is rejected and its gen-matched rollback deletes
    A's committed context without any teardown.  Only natural gates are used. *)
 Definition genstamp_leak : list label :=
-  [LSpawn OConnect] ++ rep 6 (LStep 0 true) ++             (* parked in the OnConnect handler, connectMu held *)
+  [LSpawn OConnect] ++ rep 7 (LStep 0 true) ++             (* parked in the OnConnect handler, connectMu held *)
   [LSpawn (OSubCli 0 op_); LStep 2 true] ++                (* A: generation 1 reserved, handler pending *)
   [LSpawn (OUnsubSrv 0); LStep 4 true; LStep 4 true] ++    (* U1 waits at A's gate *)
   [LTimeout 4; LStep 1 true] ++                            (* 5 s: gate nil-ed; close spawned, blocked on connectMu *)
@@ -46,16 +46,50 @@ Proof.
   exists s. split; auto. vm_compute in E. inversion E; subst. vm_compute. repeat split; auto 10.
 Qed.
 
-(* Node.Shutdown completed, then the connect command of a connection accepted earlier is processed *)
+(* Node.Shutdown completed, then the connect command of a connection accepted earlier is
+   processed.  Since 778bc3f1 connectCmd checks the shutdown state right after registering and
+   returns DisconnectShutdown; the dispatcher closes the connection. *)
 Definition shutdown_then_connect : list label :=
-  [LSpawn OShutdown; LSpawn OConnect] ++ rep 8 (LStep 2 true).
+  [LSpawn OShutdown; LSpawn OConnect] ++ rep 3 (LStep 2 true) ++   (* KCheck, KAuth (registered), KShut: refused *)
+  rep 10 (LStep 1 true).                                           (* the dispatcher's close() *)
 
 Lemma shutdown_then_connect_witness :
   exists s, exec shutdown_then_connect init = Some s /\ all_finished s = true /\
-            shut s = true /\ status s = Connected /\ reg s = true.
+            shut s = true /\ status s = Closed /\ reg s = false /\ hreg s = false /\ trace s = [].
 Proof.
   destruct (exec shutdown_then_connect init) as [s|] eqn:E; [|vm_compute in E; discriminate].
   exists s. split; auto. vm_compute in E. inversion E; subst. vm_compute. repeat split; reflexivity.
+Qed.
+
+(* the pre-fix connectCmd had no such check: from the same state (registered, shutdown flag set,
+   connect thread about to look at it) it went on to the OnConnect handler and "connected" *)
+Definition con_step_nocheck (s : st) (t : tid) (pc : kpc) (b : bool) : option st :=
+  match pc with
+  | KShut => Some (thr_set t (TCon KFinal) s)
+  | _ => con_step s t pc b
+  end.
+Fixpoint run_con_nocheck (n : nat) (s : st) (t : tid) : option st :=
+  match n with
+  | O => Some s
+  | S m => match thr s t with
+           | Some (TCon pc) => match con_step_nocheck s t pc true with
+                               | Some s' => run_con_nocheck m s' t
+                               | None => None
+                               end
+           | _ => Some s
+           end
+  end.
+Definition before_check : list label := [LSpawn OShutdown; LSpawn OConnect] ++ rep 2 (LStep 2 true).
+
+Lemma nocheck_connects :
+  exists s s', exec before_check init = Some s /\ shut s = true /\ reg s = true /\ thr s 2 = Some (TCon KShut) /\
+               run_con_nocheck 10 s 2 = Some s' /\ all_finished s' = true /\ status s' = Connected /\ shut s' = true.
+Proof.
+  destruct (exec before_check init) as [s|] eqn:E; [|vm_compute in E; discriminate].
+  destruct (run_con_nocheck 10 s 2) as [s'|] eqn:E'.
+  2:{ vm_compute in E. inversion E; subst. vm_compute in E'. discriminate. }
+  exists s, s'. vm_compute in E. inversion E; subst. vm_compute in E'. inversion E'; subst.
+  vm_compute. repeat split; reflexivity.
 Qed.
 
 Theorem genstamp_leak_refuted :
@@ -66,9 +100,18 @@ Proof.
   exists genstamp_leak, s. repeat split; auto.
 Qed.
 
-Theorem shutdown_connect_refuted :
-  exists sched s, exec sched init = Some s /\ all_finished s = true /\ shut s = true /\ status s = Connected.
+Theorem shutdown_connect_refused :
+  exists sched s, exec sched init = Some s /\ all_finished s = true /\ shut s = true /\
+                  status s = Closed /\ reg s = false /\ trace s = [].
 Proof.
-  destruct shutdown_then_connect_witness as (s & E & F & S & C & _).
+  destruct shutdown_then_connect_witness as (s & E & F & S & C & R & _ & T).
   exists shutdown_then_connect, s. repeat split; auto.
+Qed.
+
+Theorem no_shutdown_check_refuted :
+  exists sched s s', exec sched init = Some s /\ shut s = true /\ thr s 2 = Some (TCon KShut) /\
+                     run_con_nocheck 10 s 2 = Some s' /\ all_finished s' = true /\ status s' = Connected.
+Proof.
+  destruct nocheck_connects as (s & s' & E & S & R & T & E' & F & C & _).
+  exists before_check, s, s'. repeat split; auto.
 Qed.
